@@ -147,9 +147,9 @@ for f in ("f64", "f32"):
 SWEEP_MODELS = [("src/boolean/compare_segments.rs", "compare_segments", "crate::boolean::verif_kani::h_sweep::compare_segments_model"),
                 ("src/boolean/compute_fields.rs", "compute_fields", "crate::boolean::verif_kani::h_sweep::compute_fields_model"),
                 ("src/boolean/possible_intersection.rs", "possible_intersection", "crate::boolean::verif_kani::h_sweep::possible_intersection_model")]
-# templates mid_last / insert_between exist in h_sweep.rs but are not registered: CBMC reports a pointer failure inside Vec::push on
-# every path that does not reproduce natively (real heap, real SplaySet, same models): an artefact of the std stubs (DESIGN 11)
-for nm, txt in (("mid_removed", "the middle segment ends first (its removal makes the outer two neighbours)"),):
+# template mid_last exists in h_sweep.rs but is not registered (not re-measured after the heap push was stubbed; before that CBMC
+# reported a pointer failure inside Vec::push on every path that did not reproduce natively, DESIGN 11)
+for nm, txt in (("mid_removed", "the middle segment ends first (its removal makes the outer two neighbours)"), ("insert_between", "a segment is inserted between two present ones")):
     reg(f"sweep_protocol_{nm}", file="boolean/h_sweep.rs", props={"C13": "quick", "C14": "thorough", "C05": "thorough"}, lemma="G-SWEEP(protocol)", inst="f64", unwind=16,
         est_s=300, cap_s=2400, mem_gb=20, native_models=SWEEP_MODELS,
         domain=f"template: three stacked disjoint segments, {txt}; complete sweep (Union), operand tags and every return code of possible_intersection (2 / not 2) symbolic; callees replaced by recorders, BinaryHeap::pop scripted (delivers the template's events in sweep order), SplaySet replaced by a sorted-array model (its behaviour is C17)",
@@ -159,9 +159,10 @@ reg("divide_ulp_half_f64", file="boolean/h_div.rs", props={"C16": "quick", "C13"
     domain="one-ulp lattice around 1/2: x = 0.5 + i*2^-53, i < 3, y in 0..3 (neighbouring abscissas closer than f64::EPSILON)",
     claim="divide_segment at the resolution limit below 1: same contract; left/right roles are swapped exactly for an exactly vertical remainder above the right endpoint")
 
-reg("sweep_early_exit", file="boolean/h_sweep.rs", props={"C13": "quick", "C05": "thorough"}, lemma="G-SWEEP(protocol)", inst="f64", unwind=16,
+for _nm, _txt in (("sweep_early_exit", "subject bottom and top, clipping middle segment ending first"), ("sweep_early_exit_clip_left", "a clipping segment entirely left of the subject below a clipping segment reaching over it")):
+  reg(_nm, file="boolean/h_sweep.rs", props={"C13": "quick", "C05": "quick"}, lemma="G-SWEEP(protocol)", inst="f64", unwind=16,
     est_s=300, cap_s=2400, mem_gb=24, native_models=SWEEP_MODELS,
-    domain="same template; operation and both box limits symbolic (values between the event abscissas), tags concrete, return codes 0; same models",
+    domain=f"three-segment template ({_txt}); operation symbolic, boxes = the exact hulls of the operands, tags concrete, return codes 0; same models",
     claim="subdivide stops at the first event right of min(subject box, clipping box) for Intersection, right of the subject box for Difference, never for Union/Xor; the event that triggers the stop is reported; the protocol up to there is unchanged")
 
 # --------------------------------------------------------------------------------------- L-PI
@@ -325,12 +326,12 @@ QUICK = {
     "C02": ["nest_cases_flat", "nest_cases_h20", "nest_cases_h21", "nest_cases_h10", "nest_cases_h10_h20", "cf_twins_nonvert_pp1", "cf_twins_vert_pp1", "cf_step_diff_nonvert", "cf_step_same_vert", "iter_order_n3", "iter_order_n4"],
     "C03": ["nest_index_unassigned_outin", "nest_index_unassigned_inout", "divide_contract_f64", "divide_ulp_f64", "dispatch_empty_subject", "dispatch_empty_clipping", "dispatch_empty_both"],
     "C04": ["int_classify_f32", "pi_point", "iter_order_n3", "iter_order_n4", "divide_contract_f64"],
-    "C05": ["cf_relational_plain", "cf_relational_same", "fill_ids_2h_2h", "fill_ids_1_1h"],
+    "C05": ["cf_relational_plain", "cf_relational_same", "fill_ids_2h_2h", "fill_ids_1_1h", "sweep_early_exit_clip_left"],
     "C06": ["dispatch_predicate", "dispatch_empty_subject", "dispatch_empty_clipping", "dispatch_empty_both", "dispatch_union_multi1_multi1", "cf_twins_nonvert_pp1"],
     "C07": ["dispatch_forward_poly_multi2", "dispatch_forward_multi2_multi1", "dispatch_forward_multi2_poly", "dispatch_named_methods", "fill_edge_f64", "fill_two_edges_real_first", "fill_ids_2h_2h", "fill_ids_1_1h", "fill_ids_0_2", "fill_ids_2_0"],
     "C08": ["int_scale_f32"],
     "C10": ["nextafter_f64", "nextafter_f32", "int_classify_f32", "int_agree", "signed_area_forwards_f32", "signed_area_forwards_f64", "signed_area_orientation"],
-    "C13": ["fill_edge_f64", "fill_two_edges_real_first", "fill_two_edges_collapsed_first", "fill_ids_2h_2h", "fill_ids_0_2", "divide_contract_f64", "pi_none", "pi_point", "sweep_protocol_mid_removed", "sweep_early_exit"],
+    "C13": ["fill_edge_f64", "fill_two_edges_real_first", "fill_two_edges_collapsed_first", "fill_ids_2h_2h", "fill_ids_0_2", "divide_contract_f64", "pi_none", "pi_point", "sweep_protocol_mid_removed", "sweep_protocol_insert_between", "sweep_early_exit"],
     "C14": ["cf_base", "cf_step_same_nonvert", "cf_step_diff_nonvert", "cf_step_same_vert", "cf_step_diff_vert", "cf_twins_nonvert_pp0", "cf_twins_nonvert_pp1", "cf_twins_nonvert_pp2", "cf_twins_vert_pp0", "cf_twins_vert_pp1"],
     "C15": ["evord_ll_f64", "evord_lr_f64", "evord_rr_f64", "segord_oracle_f32_n3"],
     "C16": ["int_classify_f32", "divide_contract_f64", "divide_ulp_f64", "divide_ulp_half_f64", "pi_none", "pi_point", "pi_ov_v6s"],
